@@ -224,6 +224,29 @@ EXC = _mk_exc_classes()
 OBJECT = EXC['object']
 
 
+class GenList(list):
+    """Eagerly evaluated generator expression: a list that is consumed like an iterator by next()."""
+    _pos = 0
+
+
+class SealedAttrs(dict):
+    """Attribute dictionary of an object built by its real constructor.  Contract code (running outside any interpreted
+    function) may override attributes, or set ones that some method of the class assigns - but not invent one the class does
+    not know: that is a contract written for an attribute that has since been renamed or removed (undecided, not a verdict)."""
+
+    def __init__(self, d, engine, cls):
+        super().__init__(d)
+        self._engine = engine
+        self._cls = cls
+
+    def __setitem__(self, k, v):
+        e = self._engine
+        if e.call_depth == 0 and k not in self and not k.startswith('__') and k not in e.all_assigned(self._cls):
+            raise Unsupported("contract out of date: it sets attribute %r of a %s, which no method of the class assigns any more"
+                              % (k, self._cls.name))
+        dict.__setitem__(self, k, v)
+
+
 class LoopSpec:
     """Contract of one loop: invariant (list of (name, z3 bool)), variant (z3 int), extra havoc."""
 
@@ -1045,6 +1068,29 @@ class Engine:
         cls._init_assigned = out
         return out
 
+    def all_assigned(self, cls):
+        """Attribute names assigned on `self` anywhere in the methods of the class (and its bases), plus class-level names."""
+        cache = getattr(cls, '_all_assigned', None)
+        if cache is not None:
+            return cache
+        out = set()
+        for c in cls.mro:
+            for nm, f in c.dict.items():
+                out.add(nm)
+                fn = f.fget if isinstance(f, Property) else f
+                if isinstance(fn, PyFunc) and not isinstance(fn.node, ast.Lambda) and fn.node.args.args:
+                    me = fn.node.args.args[0].arg
+                    for n in ast.walk(fn.node):
+                        if isinstance(n, ast.Attribute) and isinstance(n.ctx, ast.Store) and isinstance(n.value, ast.Name) and n.value.id == me:
+                            out.add(n.attr)
+            slots = c.dict.get('__slots__')
+            if isinstance(slots, (tuple, list)):
+                out.update(x for x in slots if isinstance(x, str))
+            elif isinstance(slots, str):
+                out.add(slots)
+        cls._all_assigned = out
+        return out
+
     def _bind(self, v, obj, owner):
         if isinstance(v, PyFunc):
             if v.is_static:
@@ -1149,6 +1195,8 @@ class Engine:
                 if h is not None:
                     h(self, obj, args, kwargs)
                     break
+        if not cls.builtin and cls.module is not None and not isinstance(obj.attrs, SealedAttrs):
+            obj.attrs = SealedAttrs(obj.attrs, self, cls)
         return obj
 
     def bind_args(self, f, args, kwargs):
@@ -2088,7 +2136,9 @@ class Engine:
         return out
 
     def e_GeneratorExp(self, node, env):
-        return self.e_ListComp(node, env)
+        # evaluated eagerly (the repository's generator expressions are pure filters/maps); the result still behaves as an
+        # iterator for next()
+        return GenList(self.e_ListComp(node, env))
 
     def e_SetComp(self, node, env):
         return set(self.e_ListComp(node, env))
